@@ -559,7 +559,13 @@ func (c *InterfaceConfig) Initialize(ctx context.Context) error {
 	if len(c.Configs) == 0 {
 		c.Configs = []*Config{c.Config}
 	} else {
-		for _, subCfg := range c.Configs {
+		for i, subCfg := range c.Configs {
+			if subCfg == nil {
+				// A null list entry (`configs: [~, ...]`) is an entry that
+				// sets nothing itself.
+				subCfg = &Config{}
+				c.Configs[i] = subCfg
+			}
 			mergeConfigs(ctx, *c.Config, subCfg)
 		}
 	}
